@@ -20,6 +20,11 @@ TRUSTED = [
     "(exact for the per-attempt-channel code: nobody else accesses result/err before wg.Done)",
     "faketime runtime (virtual clock advances only when every goroutine is blocked); cmd/ftants log; python log->history conversion "
     "(pickup / attempt-creation instants are taken from the handler's ctx deadline minus T; enqueue instants are chosen by the model)",
+    "multi-pool scripts (ants_mp.py): python splits the log by pool and replays each pool on its own (ants_multi_pool_projection); the configuration used by the "
+    "monitors is python's reading of the documented option semantics (eff_pool / eff_task), the one used by the replay is the model's (apo_create / ato_create); "
+    "Get1() / Err() are replayed as AnGet2 reads (Get1 = Get2 with the error dropped; models/AntsGetters.v)",
+    "replay driver (ocaml/drv_c07.ml): the log does not order the steps of ONE virtual instant; the driver tries the sorted order greedily and, if that rejects, "
+    "searches all orders of the instant's enabled events (node budget 60000): a history is accepted iff some order is a run of the model",
 ]
 
 
@@ -106,7 +111,10 @@ class Obs:
         self.OE = {k: [] for k in range(ntasks)}
         self.G = {}
         self.GG = {}
+        self.G1 = {}                               # Get1 (own goroutine, started right after Send returned): dict(t,v,idx)
+        self.ER = {}                               # Err() right after the first Get2 returned: dict(t,e,idx)
         self.hang = []
+        self.hang1 = []
         self.PC = []                               # parent-context cancellations: dict(t,k,n,idx), logged before cancel() is called
         self.end = None
         self.runs = []                             # (idx, t, run) samples of the running counter
@@ -129,8 +137,14 @@ class Obs:
                 self.G[int(f[1])] = dict(t=int(f[2]), v=f[3], e=f[4], idx=idx)
             elif kind == "GG":
                 self.GG[int(f[1])] = dict(t=int(f[2]), v=f[3], e=f[4], idx=idx)
+            elif kind == "G1":
+                self.G1[int(f[1])] = dict(t=int(f[2]), v=f[3], idx=idx)
+            elif kind == "ER":
+                self.ER[int(f[1])] = dict(t=int(f[2]), e=f[3], idx=idx)
             elif kind == "HANG":
                 self.hang.append(int(f[1]))
+            elif kind == "HANG1":
+                self.hang1.append(int(f[1]))
             elif kind == "PC":
                 self.PC.append(dict(t=int(f[1]), k=int(f[2]), n=int(f[3]), idx=idx))
             elif kind == "END":
@@ -138,7 +152,10 @@ class Obs:
         self.ok = self.end is not None
 
     def discarded(self, k):
-        return k in self.G and self.G[k]["e"] == "DISC"
+        """rejected as busy: Get2 reported the discard error WITHOUT waiting (at the instant Send returned).  A task whose
+        handler returned some pool's discard error as its own error (behaviour error code 101) also ends with DISC, but
+        only after its attempts"""
+        return k in self.G and self.G[k]["e"] == "DISC" and (k not in self.SR or self.G[k]["t"] == self.SR[k]["t"])
 
     def cancel(self):
         """the first cancellation of the dispatchers' parent context (dict t,k,n,idx) or None"""
@@ -162,6 +179,9 @@ def structural_problems(tasks, obs):
         return [("no-log", obs.err or "log has no END record: " + obs.raw[:300])]
     for k in obs.hang:
         out.append(("get2-never-returns", "task %d: Get2 had not returned at the horizon" % k))
+    for k in obs.hang1:
+        if k not in obs.hang:
+            out.append(("get1-never-returns", "task %d: Get1 had not returned at the horizon although Get2 had" % k))
     if obs.end["run"] != 0 or obs.end["hs"] != obs.end["he"]:
         out.append(("handler-still-running", "at the horizon %d handler(s) still running (%d starts, %d ends)" % (obs.end["run"], obs.end["hs"], obs.end["he"])))
     for k, t in enumerate(tasks):
@@ -239,7 +259,14 @@ def log_to_history(tasks, obs, hd_ties):
         if k in obs.G:
             add(obs.G[k]["t"], "G", k, "%d" % k)
         if k in obs.GG:
-            add(obs.GG[k]["t"], "G", k, "%d" % k)
+            add(obs.GG[k]["t"], "G", k + 0.9, "%d" % k)
+        # Get1() is `result, _ = my.Get2()` and Err() after Get2 reads the same field: both are replayed as reads
+        # of the model (event AnGet2: must be ENABLED at their stamp, i.e. the WaitGroup is open) and compared on
+        # their component (models/AntsGetters.v, ants_getters_agree)
+        if k in obs.G1:
+            add(obs.G1[k]["t"], "G", k + 0.3, "%d" % k)
+        if k in obs.ER:
+            add(obs.ER[k]["t"], "G", k + 0.6, "%d" % k)
         if obs.discarded(k):
             continue
         att = obs.attempts(k)
@@ -269,7 +296,13 @@ def log_to_history(tasks, obs, hd_ties):
             else:
                 continue
             if q and q["t"] <= dec_t and q["t"] <= h["dl"]:
-                via = "0"   # decided after the cancellation: ctx1.Done() is ready (doneChan, if also ready, carries the same pair)
+                if he["idx"] < q["idx"] and he["t"] == q["t"] == dec_t and saw == "0":
+                    # the handler returned (and published its own pair) BEFORE the cancellation, in the same instant, and
+                    # the dispatcher decided in that instant too: doneChan (the handler's pair) and ctx1.Done() are both
+                    # ready when it looks -- the select may take either: both resolutions are enumerated
+                    via = "?"
+                else:
+                    via = "0"   # decided after the cancellation: ctx1.Done() is ready (doneChan, if also ready, carries the same pair)
             elif dec_t < h["dl"]:
                 via = "1"
             elif dec_t == h["dl"] and tie and saw == "?":
@@ -308,10 +341,11 @@ def impl_projection(tasks, obs, with_pairs=True):
     """what the model must reproduce, computed from the log"""
     res = dict(maxrun=max([r for _, _, r in obs.runs] + [0]), tasks={})
     for k, t in enumerate(tasks):
-        g = []
-        for d in (obs.G.get(k), obs.GG.get(k)):
+        g = []   # reads in the order of the history: Get2, Get1 (value only), Err() (error only), final Get2
+        for sub, d in ((0, obs.G.get(k)), (0.3, obs.G1.get(k)), (0.6, obs.ER.get(k)), (0.9, obs.GG.get(k))):
             if d:
-                g.append("%s/%s@%d" % (d["v"], d["e"], d["t"]))
+                g.append((d["t"], sub, "%s/%s@%d" % (d.get("v", "*"), d.get("e", "*"), d["t"])))
+        g = [x[2] for x in sorted(g)]
         oe = ["%s@%d" % (o["e"], o["t"]) for o in obs.OE[k]]
         if obs.discarded(k):
             res["tasks"][k] = dict(phase="disc", inv=len(obs.HS[k]), dec=0, g=g, oe=oe, rel=[], pk=0, hr=[])
@@ -327,6 +361,15 @@ def impl_projection(tasks, obs, with_pairs=True):
     return res
 
 
+def read_matches(impl, model):
+    """'v/e@t' of the implementation ('*' = component not returned by this entry point) vs the model's read"""
+    iv, ie_t = impl.split("/", 1)
+    mv, me_t = model.split("/", 1)
+    ie, it = ie_t.rsplit("@", 1)
+    me, mt = me_t.rsplit("@", 1)
+    return it == mt and iv in ("*", mv) and ie in ("*", me)
+
+
 def compare_one(want, got, with_pairs=True):
     """impl projection vs one model OK result: None or a note"""
     if want["maxrun"] != got["maxrun"]:
@@ -336,6 +379,10 @@ def compare_one(want, got, with_pairs=True):
         if m is None:
             return "task %d missing in the model" % k
         for key in ("phase", "inv", "dec", "g", "oe", "rel", "pk"):
+            if key == "g":
+                if len(w["g"]) == len(m["g"]) and all(read_matches(a, b) for a, b in zip(w["g"], m["g"])):
+                    continue
+                return "task %d Get2/Get1/Err reads: implementation %s, model %s" % (k, w[key], m[key])
             if w[key] != m[key]:
                 return "task %d %s: implementation %s, model %s" % (k, key, w[key], m[key])
         mh = []
@@ -394,6 +441,15 @@ def monitor_c07(tasks, obs):
         g = obs.G[k]
         gg = obs.GG.get(k)
         att = obs.attempts(k)
+        # the other entry points of Task: Get1 unblocks together with Get2 and returns the first component of its
+        # pair; Err() called after Get2 returned reports Get2's error (callback tasks and discarded tasks alike)
+        g1, er = obs.G1.get(k), obs.ER.get(k)
+        if g1 is not None and g1["t"] != g["t"]:
+            out.append(("get1-unblock", "task %d: Get1 returned at %d but Get2 unblocked at %d (Get1 must wait for the task exactly as Get2 does)" % (k, g1["t"], g["t"])))
+        if g1 is not None and g1["v"] != g["v"]:
+            out.append(("get1-value", "task %d: Get1 returned %s (at %d) but Get2 returned (%s,%s) (at %d)" % (k, g1["v"], g1["t"], g["v"], g["e"], g["t"])))
+        if er is not None and er["e"] != g["e"]:
+            out.append(("err-after-get2", "task %d: Err() called after Get2 returned gave %s, Get2 had returned (%s,%s)" % (k, er["e"], g["v"], g["e"])))
         if obs.discarded(k):
             if att:
                 out.append(("discard-handler-ran", "task %d was rejected as busy but its handler ran %d time(s)" % (k, len(att))))
@@ -645,8 +701,32 @@ def gen_huge_retry(rng):
     return N, tasks
 
 
+def gen_tiny_timeout(rng):
+    """extreme option values: timeouts far below a millisecond (1 ns .. 1 us) with many retries; handlers honour
+    their context, most attempts time out: Get2 must unblock within R*T of the pick-up (the harness runs on the
+    virtual clock, so nanosecond timeouts are exact)"""
+    N = rng.choice([1, 1, 2, 3])
+    tasks = []
+    now = 0
+    for i in range(rng.range(1, 4)):
+        T = rng.choice([1, 3, 7, 17, 333, 999, 1001])
+        R = rng.choice([1, 2, 5, 20, 50])
+        behs = []
+        for a in range(R):
+            if a == R - 1 and rng.chance(1, 3):
+                behs.append((max(1, T - 1 - 2 * rng.below(2)) if T > 2 else 1, True, 60 + i, 0))   # finishes just in time (T = 1: a tie, handled as such)
+            else:
+                # honours ctx: ends at the deadline (half of them would otherwise run for milliseconds)
+                behs.append((rng.choice([T + 1 + 2 * rng.below(50), 5 * MS + 1 + 2 * rng.below(50)]), True, -1, rng.choice([0, 3])))
+        tasks.append(Task(now, T, R, False, rng.chance(4, 5), behs))
+        now += 16 * rng.range(1, 40) * max(1, (R * T) // 16 + 1)
+    return N, tasks
+
+
 def gen_script(rng, kind):
-    """kind: retry | burst | ties | prompt | stubborn | pcancel | hugeR"""
+    """kind: retry | burst | ties | prompt | stubborn | pcancel | hugeR | tinyT"""
+    if kind == "tinyT":
+        return gen_tiny_timeout(rng)
     if kind == "pcancel":
         return gen_pcancel(rng)
     if kind == "hugeR":
@@ -771,7 +851,7 @@ def corpus_lines(prop_id):
 def coq_crosscheck(chk, results, limit=40):
     """Re-evaluate accepted histories with vm_compute inside coqc and compare the projections with
     the extracted OCaml model's."""
-    sample = [r for r in results if r.mline and r.model_out and r.model_out.startswith("OK ")][:limit]
+    sample = [r for r in results if r.mline and r.mline.startswith("antsrun ") and r.model_out and r.model_out.startswith("OK ")][:limit]
     if not sample:
         return 0
     outs = common.run_model([r.mline.replace("antsrun", "antscoq", 1) for r in sample])
